@@ -2,7 +2,7 @@
 # offline setup: nothing to fetch or build; parse every specification module and byte-compile the harness
 cd "$(dirname "$0")/.." || exit 1
 mkdir -p build evidence replays
-for m in Ext Sem Online Offline Past Units Norm Dense DenseOn DenseOnMC DenseOnFMC DenseOff DenseOffMC Explain ExplainMC LangMC SupportMC Lang Rtamt SemMC UnitsMC TraceDt TraceCt TraceLang TraceOp; do
+for m in Ext Sem Online Offline Past Units Norm Dense DenseOn DenseOnMC DenseOnFMC DenseOff DenseOffMC Explain ExplainMC Inputs LangMC SupportMC Lang Rtamt SemMC UnitsMC TraceDt TraceCt TraceLang TraceOp; do
   java -cp /opt/veriftools/tla/tla2tools.jar:/opt/veriftools/tla/CommunityModules-deps.jar -DTLA-Library=spec tla2sany.SANY spec/$m.tla > build/sany_$m.log 2>&1 || { echo "SANY failed on $m"; tail -5 build/sany_$m.log; exit 1; }
   if grep -q -i "error\|Multiply-defined\|Unknown operator\|requires [0-9]* argument" build/sany_$m.log; then echo "SANY reported errors on $m"; tail -8 build/sany_$m.log; exit 1; fi
 done
